@@ -75,6 +75,16 @@ CHECKS = {
         note="Trusted: RefEnv (names declared by the workflow or by one step; reads of undeclared names unconstrained). The cut of options is judged only for acts that declare outputs. Client actions happen at quiescent points; the processes interleave at task granularity.",
         technique="deterministic simulation: differential against a scope/environment reference model, multi-process interleaving",
         ref="DESIGN.md §6 C07"),
+    "C17": dict(
+        text="Seeded search over 2..5 interleaved processes of 1..3 generated models (with 0..2 registered start events) ending by completion / error / abort / skip, keep_processes on/off, both store backends, an acknowledging channel (message records exist), late adversary actions and the final removal of a model: after every terminal event and the following quiescence the exact row sets are compared - default: no process/task row of that pid left and every further action refused; keep: all rows remain and are terminal; rows of other pids and all message records untouched; model removal deletes exactly the events with that mid and exactly that model row. Sampling: evidence, not proof.",
+        note="Trusted: rows read from the backing collections at quiescent points; one client action between two quiescent points (sequential client), so that a row diff is attributable.",
+        technique="deterministic simulation: exact quiescence after terminal events, store row-set diff oracle",
+        ref="DESIGN.md §6 C17"),
+    "C18": dict(
+        text="Seeded search over 1..5 filtered channels (type/state/key/uses/tag patterns from literal, *, ?, {a,b}, [a-c]) beside a match-all channel, with channels closed / unsubscribed / re-registered under the same id at seeded task boundaries while dispatches are in flight, over generated runs with tags on workflow, steps and acts: RefGlob (independent matcher) decides for every message and channel delivered <=> registered at the dispatch and all patterns match (tag: message tag or model tag); never twice per channel id; nothing on a filtered channel that the match-all channel did not see. Sampling: evidence, not proof.",
+        note="Trusted: RefGlob for the stated subset (non-empty alternatives); one dispatch task delivers to all channels registered at that instant, so registration is judged at the dispatch observed through the match-all channel.",
+        technique="deterministic simulation: (de)registration faults at task boundaries, per-channel delivery vs an independent glob reference",
+        ref="DESIGN.md §6 C18"),
     "C19": dict(
         text="Seeded search over rule sets (1..3 rules in s/m/h/d on an act, optionally on its step), tick_interval_secs, tick phase, the simulated instant of the client's answer (before/around/after each limit, never) and stalled ticks (forward clock jumps of several periods), on the discrete-event clock (simulated hours to days per run cost milliseconds). RefTimeline per task instance and rule: at most one firing, never before start_time+limit, fired by the quiescent point after the first tick at/after the limit while the task is open, none once the task is terminal, the timed task's state unchanged by a firing. Sampling: evidence, not proof.",
         note="Trusted: the timer/clock shims (tokio interval with burst catch-up, chrono now). Millisecond granularity: a tick within 1 ms of a limit is accepted either way. The timed process is kept cached.",
